@@ -10,7 +10,7 @@
 (*   Get()               p.pool.Get().(T)     (sync.Pool.New = constructor.Get()())        :71 *)
 (*   Put(x)              p.pool.Put(p.hook.Get()(x))                                       :76-82 *)
 (*   Make()              o := p.pool.Get(); SetFinalizer(o, p.Put)  /  for a non-pointer T:           *)
-(*                       SetFinalizer(&o, func(in *T){ p.Put( *in ) }) - on a COPY             :92-103 *)
+(*                       SetFinalizer(&o, func(in *T){ p.Put( *in ) }) - on a COPY             :94-103 *)
 (*   Map.Get(k)          d := Default.Get(); out, loaded := LoadOrStore(k, d); if !loaded { Default.Put(d) } *)
 (*                                                                            *)
 (* sync.Pool is modelled by its contract: Get returns (and removes) any value *)
